@@ -11,7 +11,48 @@ from . import core
 from .core import SymBool, SymNum, Unsupported
 
 EPOCH = datetime(1970, 1, 1)
-TZ_OFF = [None]  # callable wall_seconds_term -> offset term, or None (UTC)
+TZ_OFF = [None]  # None (UTC) or an object with to_epoch(wall_term) / to_wall(epoch_term)
+
+
+class FixedZone:
+    """fixed UTC offset (z3 Int term or int), seconds east of UTC"""
+
+    def __init__(self, off):
+        self.off = off
+
+    def to_epoch(self, wall):
+        return wall - self.off
+
+    def to_wall(self, epoch):
+        return epoch + self.off
+
+
+class RuleZone:
+    """zone with standard offset `std` and +3600 between epoch instants t_on <= u < t_off (one DST season).
+    to_epoch follows CPython's datetime._mktime algorithm for naive datetimes with fold=0 exactly."""
+
+    def __init__(self, std, t_on, t_off):
+        self.std, self.t_on, self.t_off = std, t_on, t_off
+
+    def off(self, u):
+        return self.std + z3.If(z3.And(u >= self.t_on, u < self.t_off), z3.IntVal(3600), z3.IntVal(0))
+
+    def to_wall(self, epoch):
+        return epoch + self.off(epoch)
+
+    def to_epoch(self, t):
+        local = lambda u: u + self.off(u)
+        a = local(t) - t
+        u1 = t - a
+        t1 = local(u1)
+        u2a = u1 - 86400
+        b_found = local(u2a) - u2a
+        b = z3.If(t1 == t, b_found, t1 - u1)
+        u2 = t - b
+        t2 = local(u2)
+        rest = z3.If(t2 == t, u2, z3.If(t1 == t, u1, z3.If(u1 > u2, u1, u2)))
+        return z3.If(z3.And(t1 == t, a == b_found), u1, rest)
+
 
 
 def _td_secs(td: timedelta) -> int:
@@ -67,8 +108,8 @@ class SymDT(datetime):
         return None
 
     def timestamp(self):
-        off = TZ_OFF[0]
-        return SymNum(self.t if off is None else self.t - off(self.t, True))
+        zone = TZ_OFF[0]
+        return SymNum(self.t if zone is None else zone.to_epoch(self.t))
 
     def _cmp(self, o, f):
         s = secs(o)
@@ -114,8 +155,10 @@ class SymDT(datetime):
     def __sub__(self, o):
         if isinstance(o, timedelta):
             return SymDT(self.t - z3.IntVal(_td_secs(o)))
+        if isinstance(o, SymTD):
+            return SymDT(self.t - o.t)
         if isinstance(o, datetime):
-            # datetime - datetime -> timedelta; only total_seconds() is modelled
+            # datetime - datetime -> timedelta in whole seconds
             return SymTD(self.t - secs(o))
         return NotImplemented
 
@@ -147,7 +190,28 @@ class SymTD:
     def __eq__(self, o):
         if isinstance(o, timedelta):
             return SymBool(self.t == z3.IntVal(_td_secs(o)))
+        if isinstance(o, SymTD):
+            return SymBool(self.t == o.t)
         return NotImplemented
+
+    def __ne__(self, o):
+        r = self.__eq__(o)
+        return r if r is NotImplemented else SymBool(z3.Not(r.t))
+
+    def __hash__(self):
+        return self.t.get_id()
+
+    def __add__(self, o):
+        if isinstance(o, datetime):
+            return SymDT(secs(o) + self.t)
+        if isinstance(o, timedelta):
+            return SymTD(self.t + z3.IntVal(_td_secs(o)))
+        return NotImplemented
+
+    __radd__ = __add__
+
+    def __neg__(self):
+        return SymTD(-self.t)
 
     def __bool__(self):
         return core.ENGINE.branch(self.t != 0)
@@ -170,11 +234,11 @@ class DTShim(metaclass=_DTMeta):
             t = x.t
             if t.sort().kind() != z3.Z3_INT_SORT:
                 t = z3.ToInt(t)
-            off = TZ_OFF[0]
+            zone = TZ_OFF[0]
             if tz is not None:
                 # fromtimestamp(x, tz=utc): aware UTC datetime; callers strip tzinfo again
                 return SymDT(t)
-            return SymDT(t if off is None else t + off(t, False))
+            return SymDT(t if zone is None else zone.to_wall(t))
         return datetime.fromtimestamp(x, tz) if tz is not None else datetime.fromtimestamp(x)
 
     fromisoformat = datetime.fromisoformat
